@@ -97,3 +97,31 @@ func VerifC24Receive() {
 	}
 	zz.Reach("end")
 }
+
+// VerifC24Send: n writers hand entries to Sender.Replicate concurrently (the WAL
+// replication hook runs on every ingest goroutine). For every schedule of their atomic and
+// channel operations: the entries leave the queue in strictly increasing sequence order
+// (the order the receiver insists on), and every sequence number that is missing from the
+// queue was counted as dropped.
+func VerifC24Send() {
+	n := zz.ParamInt("writers", 2)
+	s := &Sender{cfg: &SenderConfig{BufferSize: zz.ParamInt("buffer", 2)}, logger: zerolog.Nop(), entryChan: make(chan *ReplicateEntry, zz.ParamInt("buffer", 2))}
+	s.running.Store(true)
+	var ws []func()
+	for i := 0; i < n; i++ {
+		id := byte(i)
+		ws = append(ws, func() { s.Replicate(&ReplicateEntry{Payload: []byte{id}}) })
+	}
+	zz.Threads(ws...)
+	last := uint64(0)
+	queued := 0
+	for len(s.entryChan) > 0 {
+		e := <-s.entryChan
+		zz.Assert(e.Sequence > last, "entries were queued for the readers out of sequence order (the receiver drops the connection on a sequence that does not advance)")
+		last = e.Sequence
+		queued++
+	}
+	zz.Assert(int64(n-queued) == s.totalEntriesDropped.Load(), "a sequence number is missing from the stream without being counted as dropped")
+	zz.Assert(s.sequence.Load() == uint64(n), "sequence numbers were not assigned one per entry")
+	zz.Reach("end")
+}
